@@ -551,6 +551,17 @@ class Residue : public Engine {
             out.hash = dgst;
             return out;
         }
+        if (op.u("fresh")) {
+            // Calls that are compared with a fresh process are preceded, before the reference itself
+            // is taken, by the same API on other data of the same length: state that sticks to the
+            // *first* such call is then in the in-process reference and absent from the fresh process.
+            for (auto &c : ctxs)
+                if (c.history == 2) {
+                    bool ignored = true;
+                    in_context(op, c, ignored);
+                    break;
+                }
+        }
         uint64_t ref = 0;
         for (size_t i = 0; i < ctxs.size(); i++) {
             const Context &c = ctxs[i];
